@@ -1,7 +1,7 @@
 """Symbolic lists: slices, min/max, index, and all/any/sum over symbolic sequences."""
 import z3
 
-from . import types as TY
+from . import tys as TY
 from .sv import SV, OutOfSubset, mk_int, mk_bool, mk_real
 from .interp import as_int_term, as_real_term
 
